@@ -1705,3 +1705,46 @@ impl Drop for Arena {
 
 #[cfg(test)]
 mod tests;
+
+#[cfg(feature = "verif-hooks")]
+#[doc(hidden)]
+impl Arena {
+  /// Header words `(sentinel, allocated, min_segment_size, discarded)`, read without firing hooks.
+  pub fn verif_header(&self) -> (u64, u32, u32, u32) {
+    let header = self.header();
+    (
+      header.sentinel.size_and_next.verif_peek(),
+      header.allocated.verif_peek(),
+      header.min_segment_size.verif_peek(),
+      header.discarded.verif_peek(),
+    )
+  }
+
+  /// Bounded free-list walk `(node offset, node word)`, fires no hooks.
+  pub fn verif_freelist(&self, max: usize) -> std::vec::Vec<(u32, u64)> {
+    let sentinel = self.header().sentinel.size_and_next.verif_peek();
+    unsafe { crate::verif::walk_freelist(self.ptr, self.cap, sentinel, max) }
+  }
+
+  /// Addresses of `[sentinel, allocated, min_segment_size, discarded, refs]` and the
+  /// `(address, size)` of the boxed `Memory`.
+  pub fn verif_words(&self) -> ([usize; 5], (usize, usize)) {
+    let header = self.header();
+    let memory = unsafe { self.inner.as_ref() };
+    (
+      [
+        &header.sentinel as *const _ as usize,
+        &header.allocated as *const _ as usize,
+        &header.min_segment_size as *const _ as usize,
+        &header.discarded as *const _ as usize,
+        memory.refs() as *const _ as usize,
+      ],
+      (self.inner.as_ptr() as usize, mem::size_of::<Memory>()),
+    )
+  }
+
+  /// Reference count, read without firing hooks.
+  pub fn verif_refs(&self) -> usize {
+    unsafe { self.inner.as_ref().refs().verif_peek() }
+  }
+}
